@@ -1102,10 +1102,11 @@ LOOP:
 				if p == -1 {
 					break LOOP
 				}
-				if l.src[p] != '\n' {
+				l.column += utf8.RuneCount(l.src[:p])
+				l.src = l.src[p:]
+				if l.src[0] != '\n' {
 					return l.errorf(bomErrorMsg)
 				}
-				l.src = l.src[p:]
 				if endLineAsSemicolon {
 					l.emit(tokenSemicolon, 0)
 					endLineAsSemicolon = false
